@@ -28,6 +28,14 @@ pub enum Op {
     Commit,
     /// commit the value 0 with blinding 0 (the commitment is the identity point)
     CommitZero,
+    /// deviation: a commitment only the verifier makes (a fresh point)
+    CommitExtraV,
+    /// deviation: a commitment only the prover makes (the verifier omits it)
+    CommitSkipV,
+    /// constrain(sum of all committed variables - const): equal weights on every commitment
+    ConSum,
+    /// deviation: prover appends the first string, the verifier the second ("" = nothing)
+    MsgDev(String, String),
     /// allocate_multiplier
     AllocMul,
     /// allocate (single variable)
@@ -61,8 +69,14 @@ pub enum Coef {
 pub struct Shape {
     pub name: String,
     pub label: String,
+    /// deviation: the verifier uses this label instead
+    #[serde(default)]
+    pub verifier_label: Option<String>,
     /// application data appended to the transcript before the constraint system is created
     pub pre_msg: Option<String>,
+    /// deviation: what the verifier appends instead (Some("") = nothing)
+    #[serde(default)]
+    pub verifier_pre_msg: Option<String>,
     pub phase1: Vec<Op>,
     /// one op list per registered randomized closure
     pub phase2: Vec<Vec<Op>>,
@@ -76,7 +90,9 @@ impl Shape {
         Shape {
             name: name.to_string(),
             label: "verif".to_string(),
+            verifier_label: None,
             pre_msg: None,
+            verifier_pre_msg: None,
             phase1: p1.to_vec(),
             phase2: p2.iter().map(|v| v.to_vec()).collect(),
             coef: Coef::Sym,
@@ -110,7 +126,7 @@ impl Shape {
         (n1, n2)
     }
     pub fn commits(&self) -> usize {
-        self.phase1.iter().filter(|o| **o == Op::Commit || **o == Op::CommitZero).count()
+        self.phase1.iter().filter(|o| matches!(o, Op::Commit | Op::CommitZero | Op::CommitSkipV)).count()
     }
     pub fn padded(&self) -> usize {
         let (a, b) = self.gates();
@@ -172,6 +188,12 @@ pub struct Shared<G: AffineRepr> {
     pub chals: Vec<FOf<G>>,
     pub handles: Vec<String>,
     pub errors: Vec<String>,
+    /// verifier-side deviation: shift the k-th replayed draw of a kind by `dev_delta`
+    pub dev_draw: Option<(String, usize)>,
+    pub dev_delta: Option<FOf<G>>,
+    pub kind_count: std::collections::HashMap<String, usize>,
+    /// point committed by a verifier-only extra commitment
+    pub extra_commitment: Option<G>,
 }
 
 impl<G: AffineRepr> Shared<G> {
@@ -181,9 +203,26 @@ impl<G: AffineRepr> Shared<G> {
             self.tape.push(v);
             v
         } else {
-            let v = self.tape[self.pos];
+            let mut v = self.tape[self.pos];
             self.pos += 1;
+            // statement deviation on the replaying (verifier) side: the k-th draw of a kind is shifted
+            let c = self.kind_count.entry(kind.to_string()).or_insert(0);
+            if let (Some((dk, di)), Some(d)) = (&self.dev_draw, self.dev_delta) {
+                if dk == kind && *di == *c {
+                    v += d;
+                }
+            }
+            *c += 1;
             v
+        }
+    }
+    /// a value computed by the recording side that the replaying side must take over unchanged
+    fn carry(&mut self, kind: &str, computed: FOf<G>) -> FOf<G> {
+        if self.recording {
+            self.tape.push(computed);
+            computed
+        } else {
+            self.draw(kind)
         }
     }
     fn coef(&mut self, phase2: bool) -> Option<FOf<G>> {
@@ -323,6 +362,45 @@ pub fn run_ops<G: AffineRepr, CS: RoleCS<G>>(cs: &mut CS, ops: &[Op], shr: &Rc<R
                 let var = cs.role_commit(sh, *op == Op::CommitZero);
                 sh.handles.push(show_var(&var));
             }
+            Op::CommitExtraV => {
+                if !prover {
+                    // verifier only: one more commitment
+                    let extra = sh.extra_commitment.expect("extra commitment point");
+                    sh.verifier_commitments.push(extra);
+                    let j = sh.v.len();
+                    // keep the tape aligned: nothing is drawn
+                    let saved = (sh.tape.clone(), sh.pos);
+                    sh.tape.insert(sh.pos, FOf::<G>::zero());
+                    sh.tape.insert(sh.pos, FOf::<G>::zero());
+                    let _ = j;
+                    let var = cs.role_commit(sh, false);
+                    sh.tape = saved.0;
+                    sh.pos = saved.1;
+                    // the extra variable is not referenced by any constraint
+                    sh.vars.pop();
+                    sh.handles.push(show_var(&var));
+                }
+            }
+            Op::CommitSkipV => {
+                if prover {
+                    let var = cs.role_commit(sh, false);
+                    sh.handles.push(show_var(&var));
+                } else {
+                    let _ = sh.draw("v");
+                    let _ = sh.draw("vb");
+                    // the verifier's list of commitments simply lacks this one
+                    let j = sh.v.len();
+                    if j < sh.verifier_commitments.len() {
+                        sh.verifier_commitments.remove(j);
+                    }
+                }
+            }
+            Op::MsgDev(a, b) => {
+                let s = if prover { a } else { b };
+                if !s.is_empty() {
+                    cs.transcript().append_message(b"app-data", s.as_bytes());
+                }
+            }
             Op::AllocMul => {
                 let l = sh.draw("w");
                 let r = sh.draw("w");
@@ -423,10 +501,22 @@ pub fn run_ops<G: AffineRepr, CS: RoleCS<G>>(cs: &mut CS, ops: &[Op], shr: &Rc<R
                     cs.role_set_gate(i, l, r, o);
                 }
             }
-            Op::Con | Op::ConConst | Op::ConCommitted => {
+            Op::Con | Op::ConConst | Op::ConCommitted | Op::ConSum => {
                 let (lc, val, terms) = match op {
                     Op::Con => sh.lc(phase2, false),
                     Op::ConCommitted => sh.lc(phase2, true),
+                    Op::ConSum => {
+                        let mut lc = LinearCombination::default();
+                        let mut val = FOf::<G>::zero();
+                        let mut terms = vec![];
+                        for (var, x) in sh.vars.clone().iter().filter(|(v, _)| matches!(v, Variable::Committed(_))) {
+                            lc = lc + *var;
+                            val += x;
+                            let (vk, vi) = vkey(var).unwrap();
+                            terms.push((vk, vi, FOf::<G>::one()));
+                        }
+                        (lc, val, terms)
+                    }
                     _ => (LinearCombination::default(), FOf::<G>::zero(), vec![]),
                 };
                 let q = sh.n_explicit_con;
@@ -435,10 +525,11 @@ pub fn run_ops<G: AffineRepr, CS: RoleCS<G>>(cs: &mut CS, ops: &[Op], shr: &Rc<R
                 // constant chosen so that the constraint evaluates to `e` (0 = satisfied); it is
                 // spelled as two separate constant terms (as in `lhs - rhs` with a constant on
                 // each side), since linear combinations never merge terms
-                let c = e - val;
+                let c = sh.carry("const", e - val);
                 let ca = sh.draw("k");
                 cs.constrain(LinearCombination::from(ca) + lc + LinearCombination::from(c - ca));
-                sh.con_vals.push(e);
+                // value of the constraint under the tracked assignment (e on the recording side)
+                sh.con_vals.push(val + c);
                 sh.cons.push((terms, c));
             }
             Op::ConTree(seed, depth) => {
@@ -465,9 +556,9 @@ pub fn run_ops<G: AffineRepr, CS: RoleCS<G>>(cs: &mut CS, ops: &[Op], shr: &Rc<R
                 sh.n_explicit_con += 1;
                 let e = if sh.err.con.contains(&q) { sh.draw("err") } else { FOf::<G>::zero() };
                 // constrain(expr - c) with c = value(expr) - e
-                let c = val - e;
+                let c = sh.carry("const", val - e);
                 cs.constrain(lc - c);
-                sh.con_vals.push(e);
+                sh.con_vals.push(val - c);
                 let terms: Vec<(VK, usize, FOf<G>)> = handles.iter().zip(dense.iter()).map(|(h, co)| { let (k, i) = vkey(h).unwrap(); (k, i, *co) }).collect();
                 sh.cons.push((terms, k0 - c));
                 sh.handles.push(format!("tree:{}", crate::expr::show(&tree)));
@@ -545,6 +636,10 @@ pub fn new_shared<G: AffineRepr>(shape: &Shape, err: &ErrPlan, src: Box<dyn Vals
         chals: vec![],
         handles: vec![],
         errors: vec![],
+        dev_draw: None,
+        dev_delta: None,
+        kind_count: Default::default(),
+        extra_commitment: None,
     }))
 }
 
@@ -602,6 +697,8 @@ pub fn rewind_for_verifier<G: AffineRepr>(shr: &Rc<RefCell<Shared<G>>>) {
     sh.gates.clear();
     sh.pending = None;
     sh.chals.clear();
+    sh.kind_count.clear();
+    sh.handles.clear();
     if sh.verifier_commitments.is_empty() {
         sh.verifier_commitments = sh.commitments.clone();
     }
@@ -613,8 +710,13 @@ pub struct PreparedVerifier<'t, G: AffineRepr> {
 
 pub fn new_verifier_transcript(shape: &Shape) -> Transcript {
     let mut vt = Transcript::new(b"verif-shape");
-    vt.append_message(b"label", shape.label.as_bytes());
-    if let Some(m) = &shape.pre_msg {
+    vt.append_message(b"label", shape.verifier_label.as_ref().unwrap_or(&shape.label).as_bytes());
+    let pre = match &shape.verifier_pre_msg {
+        Some(m) if m.is_empty() => None,
+        Some(m) => Some(m.clone()),
+        None => shape.pre_msg.clone(),
+    };
+    if let Some(m) = &pre {
         vt.append_message(b"pre", m.as_bytes());
     }
     vt
